@@ -634,10 +634,96 @@ func checkHostMap(c *HostMapCase) *Outcome {
 	return ok(true, "host-map-iteration-order:"+c.Kind)
 }
 
+// ---- an engine that redefines a built-in operator (same name and position, other binding
+// power / associativity) is that engine's own business: what other engines, engines created
+// later and the one-shot entry points make of a source does not change
+
+type OpRedefCase struct {
+	Redef int  `json:"redef"`          // index into opRedefs
+	Late  bool `json:"late,omitempty"` // the redefining engine has compiled something before it registers the operator
+	Fresh bool `json:"fresh,omitempty"`
+}
+
+var opRedefs = [][]ref.Op{
+	{{Name: "^", BP: 9, Fix: "infixl"}},
+	{{Name: "*", BP: 6.5, Fix: "infixl"}},
+	{{Name: "-", BP: 1, Fix: "prefix"}},
+	{{Name: "+", BP: 8.5, Fix: "infixl"}, {Name: "==", BP: 9.5, Fix: "infixn"}},
+	{{Name: "&&", BP: 2.5, Fix: "infixl"}, {Name: "!", BP: 2, Fix: "prefix"}},
+	{{Name: "-", BP: 7, Fix: "infixr"}},
+}
+
+var opRedefProbes = []struct {
+	src  string
+	want string
+}{
+	{"2 ^ 3 ^ 2", "512"}, {"1 - 2 - 3", "-4"}, {"2 + 3 * 4", "14"}, {"-2 ^ 2", "4"}, {"1 + 1 == 2", "true"}, {"!true || true", "true"}, {"true || true && false", "true"}, {"10 - 4 - 3 * 2 + 1", "1"},
+}
+
+func checkOpRedef(c *OpRedefCase) *Outcome {
+	if c.Redef < 0 || c.Redef >= len(opRedefs) {
+		return skip("bad-index")
+	}
+	plain := yae.NewExpr()
+	probe := func(when string) *Outcome {
+		for _, pr := range opRedefProbes {
+			for how, f := range map[string]func() (*val.Val, error){
+				"yae.Eval": func() (*val.Val, error) { return yae.Eval(pr.src, nil) },
+				"a fresh engine": func() (*val.Val, error) {
+					cl, err := yae.NewExpr().Compile(pr.src, nil)
+					if err != nil {
+						return nil, err
+					}
+					return cl(nil)
+				},
+				"an engine created before": func() (*val.Val, error) {
+					cl, err := plain.Compile(pr.src, nil)
+					if err != nil {
+						return nil, err
+					}
+					return cl(nil)
+				},
+			} {
+				var v *val.Val
+				var err error
+				if p := run.Guard(func() { v, err = f() }); p != nil {
+					return bad("%s of %s panicked %s: %s", how, pr.src, when, p.Text)
+				}
+				if err != nil {
+					return bad("%s of %s fails %s: %v", how, pr.src, when, err)
+				}
+				if got := v.String(); got != pr.want {
+					return bad("%s of %s yields %s %s; the built-in operator table gives %s (redefinition on another engine: %v)", how, pr.src, got, when, pr.want, opRedefs[c.Redef])
+				}
+			}
+		}
+		return nil
+	}
+	if o := probe("before any engine redefined an operator"); o != nil {
+		return o
+	}
+	other := yae.NewExpr()
+	if c.Fresh {
+		other.UseClosureCompiler()
+	}
+	if c.Late {
+		_, _ = other.Compile("1 + 1", nil)
+	}
+	_ = run.Guard(func() { other.RegisterOperator(run.YaeOps(opRedefs[c.Redef])...) })
+	_ = run.Guard(func() { _, _ = other.Compile("1 + 1", nil) })
+	_ = run.Guard(func() { _, _ = other.Compile("2 ^ 3 ^ 2 - 1 * 2", nil) })
+	if o := probe("after another engine redefined " + opRedefs[c.Redef][0].Name + " for itself"); o != nil {
+		return o
+	}
+	return ok(true, "operator-redefined-on-another-engine")
+}
+
+var c13opredef = Register(&Prop[OpRedefCase]{ID: "C13", Name: "operator-redefinition-elsewhere", Check: checkOpRedef})
+
 var c13hostmap = Register(&Prop[HostMapCase]{ID: "C13", Name: "host-map-order", Check: checkHostMap})
 
 func TestC13(t *testing.T) {
-	R.Rule = "histories of 3-25 operations over a pool of <= 4 expressions (results with multi-entry maps, objects, set operations, string(x), print), three engine instances (VM, closure, VM) and deliberately reused environment objects (one raw *types.Env, two raw *val.Env with different contents, host structs and maps): compile(expr, type object) on engine i; invoke(callable, value object); one-shot Eval; Debug; render an earlier result 16 times; one compile in three wraps the expression in a template calling the identity host function nest, and while nest runs inside an invocation another callable - possibly the very one being evaluated - is invoked to completion (an invocation nested in an evaluation, depth <= 2); oracle after every step: outcome = the reference evaluator on (expression, environment contents) alone, captured standard output = exactly the print lines, host values deep-equal to an identically built twin, every binding of the raw value environments reads as before, renderings never vary, an environment object used once is accepted again; plus Go maps as host data (time keys within one second and in two zones, neighbouring floats, strings, large integers, interface{} and pointer keys that do / do not denote the same number; 2-6 entries) evaluated 24 times each through string / len / == / get / isset / subscript with identical outcomes; plus repeated fresh evaluation of single programs (6 x 2 back ends) with identical result text and output; plus one source text (13 templates over overloaded / polymorphic built-ins) compiled 2-5 times on ONE engine against environments that give its variables different types, each step compared with a fresh engine, and the same text parsed once (Expr.Parse) with that one tree compiled at every step (Expr.CompileExpr), closures compiled earlier re-invoked after every later compilation; non-trivial = an environment object reused after another operation and a result with a multi-entry map or >= 2 results"
+	R.Rule = "histories of 3-25 operations over a pool of <= 4 expressions (results with multi-entry maps, objects, set operations, string(x), print), three engine instances (VM, closure, VM) and deliberately reused environment objects (one raw *types.Env, two raw *val.Env with different contents, host structs and maps): compile(expr, type object) on engine i; invoke(callable, value object); one-shot Eval; Debug; render an earlier result 16 times; one compile in three wraps the expression in a template calling the identity host function nest, and while nest runs inside an invocation another callable - possibly the very one being evaluated - is invoked to completion (an invocation nested in an evaluation, depth <= 2); oracle after every step: outcome = the reference evaluator on (expression, environment contents) alone, captured standard output = exactly the print lines, host values deep-equal to an identically built twin, every binding of the raw value environments reads as before, renderings never vary, an environment object used once is accepted again; plus eight precedence- / associativity-sensitive sources evaluated through Eval, a fresh engine and an engine created earlier, before and after ANOTHER engine registers an operator with the name and position of a built-in but another binding (six redefinitions, registered before or after that engine's first compilation): always the value the built-in table gives; plus Go maps as host data (time keys within one second and in two zones, neighbouring floats, strings, large integers, interface{} and pointer keys that do / do not denote the same number; 2-6 entries) evaluated 24 times each through string / len / == / get / isset / subscript with identical outcomes; plus repeated fresh evaluation of single programs (6 x 2 back ends) with identical result text and output; plus one source text (13 templates over overloaded / polymorphic built-ins) compiled 2-5 times on ONE engine against environments that give its variables different types, each step compared with a fresh engine, and the same text parsed once (Expr.Parse) with that one tree compiled at every step (Expr.CompileExpr), closures compiled earlier re-invoked after every later compilation; non-trivial = an environment object reused after another operation and a result with a multi-entry map or >= 2 results"
 	R.Assume = []string{"ref.Eval and the characterised rendering of print"}
 	reportKnown(t, "C13")
 	runRegress(t, "C13")
@@ -645,6 +731,15 @@ func TestC13(t *testing.T) {
 		for _, k := range []string{"time-subsecond", "time-zones", "float-neighbours", "float-mixed", "string", "int", "iface-colliding", "iface-distinct", "ptr-colliding", "ptr-distinct"} {
 			for n := 2; n <= 6; n++ {
 				if !yield(&HostMapCase{Kind: k, N: n}) {
+					return
+				}
+			}
+		}
+	})
+	c13opredef.Each(t, "operator-redefinitions", func(yield func(*OpRedefCase) bool) {
+		for i := range opRedefs {
+			for _, late := range []bool{false, true} {
+				if !yield(&OpRedefCase{Redef: i, Late: late, Fresh: i%2 == 1}) {
 					return
 				}
 			}
